@@ -117,12 +117,12 @@ def string_cell_special_fill(cell_is_fill: bool, cell: str, missing: str, fill_s
     return back == c
 
 
-_INTS = [0, 7, -3, 10, 999999, -1, 9007199254740993, -12345678901234567890]  # incl. integers no float64 represents
+_INTS = [0, 7, -3, 10, -1, 9007199254740993, -12345678901234567890]  # incl. integers no float64 represents
 
 
 def int_cell_roundtrip(cell_sel: int, fill_sel: int, missing: str) -> bool:
     """
-    pre: 0 <= cell_sel < 8 and 0 <= fill_sel < 8
+    pre: 0 <= cell_sel < 7 and 0 <= fill_sel < 7
     pre: len(missing) <= 2 and "," not in missing
     pre: str(_INTS[cell_sel]) != missing
     post: _
@@ -343,11 +343,11 @@ class _CsvText:
                 if ch == chr(10):
                     break
                 n += 1
+                if ch == " " and skipinitialspace and cur == "":
+                    continue  # as in _csv.c: a blank at the start of a field is dropped BEFORE the delimiter test
                 if ch == delimiter:
                     fields.append(cur)
                     cur = ""
-                elif ch == " " and skipinitialspace and cur == "":
-                    continue
                 else:
                     cur += ch
             if n == 0:
@@ -472,3 +472,39 @@ def single_column_rows_through_reader(c1: str, c2: str, missing: str) -> bool:
     rows = [[c2], [c1], [fills[0]], [c2]]
     back = _roundtrip_rows(",", missing, fills, rows)
     return back == [tuple(r[0] for r in rows)]
+
+
+def rows_through_reader_space(c1: str, c2: str, missing: str) -> bool:
+    """
+    pre: len(c1) <= 1 and len(c2) <= 1 and len(missing) <= 1
+    pre: c1 == c1.strip() and c2 == c2.strip() and missing == missing.strip()
+    pre: all(ch not in c1 + c2 + missing for ch in (chr(10), chr(13), chr(34), ",", chr(9), ";", "|", " "))
+    pre: c1 != missing and c2 != missing
+    post: _
+    raises: SCSVError
+    """
+    return _rows_contract(c1, c2, missing, " ")
+
+
+def header_scalars_are_single_quoted(delimiter: str, missing: str) -> bool:
+    """
+    pre: len(delimiter) == 1 and len(missing) <= 2
+    pre: delimiter not in missing and chr(10) not in delimiter + missing and chr(13) not in delimiter + missing
+    post: _
+    raises: SCSVError
+    """
+    # YAML single-quoted style: the content is literal except that a quote is written twice
+    rec = _Rec()
+    schema = {"delimiter": delimiter, "missing": missing, "fields": [{"name": "a", "type": "integer", "fill": "7"}]}
+    saved = pio._log
+    pio._log = _Log
+    try:
+        pio.write_scsv_header(rec, schema)
+    finally:
+        pio._log = saved
+    text = "".join(rec.text)
+    q = chr(39)
+    want_d = "  delimiter: " + q + delimiter.replace(q, q + q) + q
+    want_m = "  missing: " + q + missing.replace(q, q + q) + q
+    lines = text.split(chr(10))
+    return want_d in lines and want_m in lines
